@@ -29,6 +29,26 @@ func (P *Prog) verifyFunc(fn *ssa.Function, thorough bool) (res *FuncResult) {
 	return P.verifyFuncMode(fn, thorough, "")
 }
 
+// verifyFuncPinned: the automatic invariant candidates are exactly those recorded in the baseline
+// (pinned, ids "loopN:auto:<cand>"): no Houdini search at check time, so the set of obligations does not
+// depend on solver timing. A pinned candidate that no longer holds is an ordinary failed claimed obligation.
+func (P *Prog) verifyFuncPinned(fn *ssa.Function, thorough bool, pinned map[string]bool) (res *FuncResult) {
+	off := map[string]bool{}
+	res = P.verifyFuncOnce(fn, thorough, off, "")
+	if res.Ex == nil || len(res.Ex.autoSeen) == 0 || res.Unsupported != "" || res.ContractErr != "" {
+		return res
+	}
+	for _, c := range res.Ex.autoSeen {
+		if !pinned[c] {
+			off[c] = true
+		}
+	}
+	if len(off) == 0 {
+		return res
+	}
+	return P.verifyFuncOnce(fn, thorough, off, "")
+}
+
 func (P *Prog) verifyFuncMode(fn *ssa.Function, thorough bool, mode string) (res *FuncResult) {
 	off := map[string]bool{}
 	for iter := 0; iter < 5; iter++ {
@@ -46,8 +66,8 @@ func (P *Prog) verifyFuncMode(fn *ssa.Function, thorough bool, mode string) (res
 			return res
 		}
 		tmp, _ := os.MkdirTemp("", "govc-houdini-")
-		s := newSolver(tmp, 0, 3000, 8)
-		s.quickMs = 1500
+		s := newSolver(tmp, 0, 6000, 8)
+		s.quickMs = 3000
 		s.fastOnly = true
 		vs := s.solveAll(res.Ex, cand)
 		os.RemoveAll(tmp)
